@@ -123,6 +123,43 @@ macro_rules! harnesses {
         }
         $crate::harness_list!($list; $($name),*);
     };
+    ($list:ident; navstub; unwind $u:literal; $($name:ident),* $(,)?) => {
+        #[cfg(kani)]
+        mod kani_wrappers {
+            $(
+                #[kani::proof]
+                #[kani::unwind($u)]
+                #[cfg_attr(any(feature = "std", feature = "alloc"), kani::stub(alloc::fmt::format, $crate::stubs::fmt_stub))]
+                #[kani::stub(ais::messages::navigation::parse_longitude, $crate::stubs::lon_id_stub)]
+                #[kani::stub(ais::messages::navigation::parse_latitude, $crate::stubs::lat_id_stub)]
+                #[kani::stub(ais::messages::navigation::parse_speed_over_ground, $crate::stubs::sog_id_stub)]
+                #[kani::stub(ais::messages::navigation::parse_cog, $crate::stubs::cog_id_stub)]
+                fn $name() {
+                    super::$name(&mut $crate::nd::KaniNd);
+                }
+            )*
+        }
+        $crate::harness_list!($list; $($name),*);
+    };
+    ($list:ident; navstub_text; unwind $u:literal; $($name:ident),* $(,)?) => {
+        #[cfg(kani)]
+        mod kani_wrappers {
+            $(
+                #[kani::proof]
+                #[kani::unwind($u)]
+                #[cfg_attr(any(feature = "std", feature = "alloc"), kani::stub(alloc::fmt::format, $crate::stubs::fmt_stub))]
+                #[kani::stub(ais::messages::parsers::parse_6bit_ascii, $crate::stubs::skip_text_stub)]
+                #[kani::stub(ais::messages::navigation::parse_longitude, $crate::stubs::lon_id_stub)]
+                #[kani::stub(ais::messages::navigation::parse_latitude, $crate::stubs::lat_id_stub)]
+                #[kani::stub(ais::messages::navigation::parse_speed_over_ground, $crate::stubs::sog_id_stub)]
+                #[kani::stub(ais::messages::navigation::parse_cog, $crate::stubs::cog_id_stub)]
+                fn $name() {
+                    super::$name(&mut $crate::nd::KaniNd);
+                }
+            )*
+        }
+        $crate::harness_list!($list; $($name),*);
+    };
 }
 
 #[macro_export]
